@@ -83,3 +83,34 @@ SOURCES = {
             "src/hashgraph/roundInfo.go:RoundInfo.WitnessesDecided", HG + "_stronglySee", HG + "_round"],
     "C20": PROXY,
 }
+
+
+# Who can write the state a property is about: "writers:<package dir>:<field>" entries of the
+# fingerprint tool (functions assigning the field directly, and functions reaching one of them
+# through at most three calls, with their distance). A new way of writing the field — a handler
+# that starts calling a setter — breaks the tie although no mirrored function changed.
+def _w(d, *fields):
+    return ["writers:%s:%s" % (d, f) for f in fields]
+
+WRITERS = {
+    "C01": _w("src/hashgraph", "round", "roundReceived", "lamportTimestamp", "decided", "Famous", "Witness", "PendingRounds", "LastConsensusRound",
+              "lastAncestors", "firstDescendants", "peerSetCache", "roundLowerBound"),
+    "C02": _w("src/hashgraph", "lastBlock", "blockCache", "LastConsensusRound", "roundReceived", "StateHash"),
+    "C03": _w("src/hashgraph", "round", "roundReceived", "lamportTimestamp", "decided", "Famous", "Witness", "lastAncestors", "firstDescendants",
+              "witnessCache", "stronglySeeCache", "ancestorCache", "roundCache", "timestampCache"),
+    "C04": _w("src/hashgraph", "roundReceived", "lamportTimestamp", "ReceivedEvents", "LastCommitedRoundEvents"),
+    "C05": _w("src/node", "transactionPool", "internalTransactionPool", "selfBlockSignatures", "head", "seq"),
+    "C06": _w("src/node", "heads", "head", "seq", "transactionPool") + _w("src/hashgraph", "PendingLoadedEvents", "UndeterminedEvents"),
+    "C07": _w("src/hashgraph", "topologicalIndex", "UndeterminedEvents", "PendingLoadedEvents", "participantEventsCache", "eventCache"),
+    "C09": _w("src/hashgraph", "AnchorBlock", "PendingSignatures", "Signatures", "items") + _w("src/node", "selfBlockSignatures"),
+    "C10": _w("src/hashgraph", "peerSetCache", "peerSets", "firstRounds", "repertoireByPubKey", "repertoireByID") + _w("src/node", "validators", "peers", "lastPeerChangeRound"),
+    "C11": _w("src/hashgraph", "topologicalIndex", "firstDescendants", "lastAncestors", "UndeterminedEvents", "maintenanceMode"),
+    "C12": _w("src/node", "validators", "peers", "genesisPeers") + _w("src/hashgraph", "AnchorBlock", "roundLowerBound"),
+    "C13": _w("src/hashgraph", "roundLowerBound", "roots", "peerSetCache", "firstRounds", "Roots", "PeerSets") + _w("src/node", "validators", "peers"),
+    "C14": _w("src/node", "validators", "peers", "genesisPeers"),
+    "C16": _w("src/hashgraph", "roots", "lastRound", "lastBlock", "lastConsensusEvents", "totConsensusEvents", "repertoireByPubKey", "repertoireByID"),
+    "C17": _w("src/node", "initialUndeterminedEvents", "removedRound", "acceptedRound"),
+    "C19": _w("src/peers", "superMajority", "trustCount", "Peers", "ByPubKey", "ByID"),
+}
+for _p, _l in WRITERS.items():
+    SOURCES[_p] = SOURCES[_p] + _l
